@@ -300,3 +300,44 @@ def record(cname: str, seed: int) -> dict:
     except Exception as ex:  # noqa: BLE001
         rec["exc"] = f"{type(ex).__name__}: {ex}"[:120]
     return rec
+
+
+SIDES = ("top", "right", "bottom", "left")
+
+
+def sibling_argument_effects() -> list:
+    """Constructor arguments that come in four sides (padding_top/right/bottom/left, border_...): given ALONE, either each
+    of them changes the element or none does (the group does not apply to that family).  Returns the odd ones out."""
+    rng = random.Random(5)
+    out = []
+    for cname, cls in sorted(classes().items()):
+        try:
+            sig = inspect.signature(cls.__init__)
+        except (TypeError, ValueError):
+            continue
+        params = {n: p for n, p in sig.parameters.items() if n not in ("self", "kwargs", "args", "tag", "tag_or_elem") and p.kind not in (p.VAR_POSITIONAL, p.VAR_KEYWORD)}
+        stems = sorted({n.rsplit("_", 1)[0] for n in params if n.rsplit("_", 1)[-1] in SIDES and all(f"{n.rsplit('_', 1)[0]}_{s}" in params for s in SIDES)})
+        if not stems:
+            continue
+        req = {n: gen_arg(rng, n, str(p.annotation), None) for n, p in params.items() if p.default is p.empty}
+        fams = [None]
+        if "family" in params:
+            fams = ["paragraph", "text", "table-cell", "table-row", "table-column", "table", "graphic", "page-layout", "section"]
+        for fam in fams:
+            base_kw = dict(req)
+            if fam:
+                base_kw["family"] = fam
+            try:
+                base = cls(**base_kw).serialize()
+            except Exception:  # noqa: BLE001
+                continue
+            for stem in stems:
+                eff = {}
+                for side in SIDES:
+                    try:
+                        eff[side] = cls(**{**base_kw, f"{stem}_{side}": "0.5cm"}).serialize() != base
+                    except Exception as ex:  # noqa: BLE001
+                        eff[side] = "exc:" + type(ex).__name__
+                if len({repr(v) for v in eff.values()}) > 1:
+                    out.append({"class": cname, "family": fam, "group": stem, "effect_alone": eff})
+    return out
